@@ -14,9 +14,38 @@ thread_local! {
 thread_local! {
     static USED: std::cell::Cell<bool> = const { std::cell::Cell::new(false) };
 }
+thread_local! {
+    /// when set, every generated record / target matrix is handed out in COLUMN-MAJOR (Fortran)
+    /// memory order: same contents, different layout (layout is state that serialisation drops)
+    static F_ORDER: std::cell::Cell<bool> = const { std::cell::Cell::new(false) };
+}
 pub fn set_variant(v: u64) {
     VARIANT.with(|c| c.set(v));
     USED.with(|c| c.set(false));
+}
+/// (variant, f_order, used): saved and restored around every case, because a rayon worker that
+/// waits inside the subject's own parallel loop (k-means) may run ANOTHER case of the sweep on
+/// the same thread in the meantime; nesting is strictly LIFO, so save / restore is exact
+pub fn save_state() -> (u64, bool, bool) {
+    (variant(), f_order(), data_used())
+}
+pub fn restore_state(s: (u64, bool, bool)) {
+    VARIANT.with(|c| c.set(s.0));
+    F_ORDER.with(|c| c.set(s.1));
+    USED.with(|c| c.set(s.2));
+}
+pub fn set_f_order(b: bool) {
+    F_ORDER.with(|c| c.set(b));
+}
+pub fn f_order() -> bool {
+    F_ORDER.with(|c| c.get())
+}
+/// the same matrix in column-major memory order
+pub fn to_f_order<F: Float>(a: &Array2<F>) -> Array2<F> {
+    use ndarray::ShapeBuilder;
+    let mut out = Array2::zeros(a.raw_dim().f());
+    out.assign(a);
+    out
 }
 /// did the case just run draw any variant-dependent data? (if not, its variants are duplicates)
 pub fn data_used() -> bool {
@@ -41,8 +70,14 @@ impl Lcg {
     }
 }
 
+/// casts; generated data leave through here, so this is where the layout variant is applied
 pub fn cast2<F: Float>(a: &Array2<f64>) -> Array2<F> {
-    a.mapv(|x| F::cast(x))
+    let c = a.mapv(|x| F::cast(x));
+    if f_order() {
+        to_f_order(&c)
+    } else {
+        c
+    }
 }
 pub fn cast1<F: Float>(a: &Array1<f64>) -> Array1<F> {
     a.mapv(|x| F::cast(x))
